@@ -673,7 +673,10 @@ OnQuiesce(m, o) ==
         m2b == Chk(m2, o.data = 0, "C11", "an event bookkeeping entity outlived its tree")
         m3 == Chk(m2b, Len(m.stack) = 0, "C09", "commands still open when the flush returned")
         unfinished == \E k \in DOMAIN m.cmd : m.cmd[k].st \in {"reached", "postponed", "replaying", "running"}
-        m4 == Chk(m3, ~unfinished /\ Len(m.owed) = 0 /\ m.last.kind = "none", "C02", "a scheduled run had not happened when the flush returned")
+        m4a == Chk(m3, ~unfinished /\ Len(m.owed) = 0 /\ m.last.kind = "none", "C02", "a scheduled run had not happened when the flush returned")
+        \* a command whose target is gone must have been skipped (which releases its payload) by now
+        stale == \E k \in DOMAIN m.cmd : m.cmd[k].st \in {"reached", "postponed", "replaying"} /\ m.cmd[k].s \notin m.alive
+        m4 == Chk(m4a, ~stale, "C18", "a command for a despawned target was neither skipped nor was its payload released")
         unrel == \E p \in DOMAIN m.pay : ~m.pay[p].dropped
         unrel0 == FALSE
         m5 == Chk(m4, ~unrel /\ ~unrel0, "C05", "an event payload was not released by the end of its tree")
